@@ -448,15 +448,43 @@ def r7_edge_agreement(repo: Repo, rep):
         rep.check(R, a == b, nor.site(), nor.fq, f"normal() tests exactly {sorted(a)}", f"normal tests {sorted(b)}", f"{sorted(b)} vs {sorted(a)}")
 
 
+def r8_walk_from_zero(repo: Repo, rep):
+    R = rep.rule("R-C06-8", "polygon boundary samplers walk the sides in local coordinates (a zero buffer) and add the origin once at the end", floor=4,
+                 why="the edge tests compare barycentric coordinates with 0 (absolute tolerance 1e-8 only): the closed walk d1 + d2 - d1 - s*d2 cancels exactly around 0, "
+                     "but not when every partial sum is rounded around the origin — such points match no edge and get the normal 0/0")
+    for mod, cname in (("parallelogram", "ParallelogramBoundary"), ("triangle", "TriangleBoundary")):
+        ci = repo.cls(f"{DOM}.domain2D.{mod}.{cname}")
+        for mname in ("sample_random_uniform", "sample_grid"):
+            fi = ci.methods.get(mname)
+            if fi is None:
+                continue
+            rep.saw(fi)
+            for p in paths(fi.node, expand_self=False):
+                if p.ret is RAISE or p.ret is None:
+                    continue
+                walks = [e.value for e in p.events if e.kind == "call" and isinstance(e.value, ast.Call) and dump(e.value.func) == "self._transform_interval_to_boundary"]
+                if not walks:
+                    rep.undecided(R, fi.site(), fi.fq, "the side walk helper is called", "no call of _transform_interval_to_boundary")
+                    break
+                w = walks[0]
+                bufs = [a for a in w.args if isinstance(a, ast.Call) and attr_chain(a.func) in ("torch.zeros", "torch.zeros_like")]
+                others = [dump(a)[:50] for a in w.args if isinstance(a, ast.Call) and attr_chain(a.func) not in ("torch.zeros", "torch.zeros_like", "torch.rand") and "origin" in dump(a)]
+                rep.check(R, len(bufs) == 1 and not others, fi.site(), fi.fq, "the walk accumulates into torch.zeros(..) (origin not yet added)", f"buffer arguments {[dump(a)[:50] for a in w.args][-2:]}", "walk buffer")
+                rep.check(R, "origin" in dump(p.ret) or "_construct_" in dump(p.ret), fi.site(p.ret_node), fi.fq, "the origin is added to the finished walk", dump(p.ret)[:100], "origin added last")
+                break
+
+
 def run(repo: Repo, rep):
+    r8_walk_from_zero(repo, rep)
     r7_edge_agreement(repo, rep)
     r6_edge_tests(repo, rep)
     r1_boolean(repo, rep)
     r2_r3_edges(repo, rep)
     r4_orientation(repo, rep)
     r5_single_point(repo, rep)
-    from .c05 import r1_truth_tables  # normals are selected by boundary membership; its Boolean structure must be the set algebra
+    from .c05 import r1_truth_tables, r7_own_columns  # normals are selected by boundary membership; its Boolean structure must be the set algebra; own coordinates by name
     r1_truth_tables(repo, rep)
+    r7_own_columns(repo, rep)
 
 
 _U = "src/torchphysics/problem/domains/domainoperations/union.py"
